@@ -122,6 +122,35 @@ MULTI_RS = '''fn chain_NAME(opt: Option<i32>, items: Vec<String>) -> i32 {
 '''
 
 
+TEMPORAL = ["currently", "recently", "Created 2024-01-05", "replaces the old reader", "temporarily", "will be extended", "now supports", "formerly"]
+FIELDS = ["Purpose", "Scope", "Overview", "Dependencies", "Exports", "Interfaces", "Implementation"]
+
+
+def header_case(rng, idx):
+    """py / ts / sh files whose header carries 0-3 temporal phrases on random field or continuation lines, blank lines between fields at random."""
+    files, facts = {}, {}
+    for ext, open_, pre, close in ((".py", '\"\"\"', "", '\"\"\"'), (".ts", "/**", " * ", " */"), (".sh", None, "# ", None)):
+        lines = ["#!/bin/bash"] if ext == ".sh" else []
+        if open_:
+            lines.append(open_)
+        for f in FIELDS:
+            body = "plain text about %s" % f.lower()
+            if rng.random() < 0.3:
+                body += " " + rng.choice(TEMPORAL)
+            lines.append((pre + "%s: %s" % (f, body)).rstrip())
+            if rng.random() < 0.4:
+                lines.append((pre + "    continued " + (rng.choice(TEMPORAL) if rng.random() < 0.4 else "without anything special")).rstrip())
+            if rng.random() < 0.5:
+                lines.append(pre.rstrip())
+        if close:
+            lines.append(close)
+        lines += ["", {".py": "def f_%d(a):\n    return a" % idx, ".ts": "export function f_%d(a: number): number { return a; }" % idx, ".sh": "echo %d" % idx}[ext], ""]
+        f = "pkg/h%d%s" % (idx, ext)
+        files[f] = "\n".join(lines)
+        facts[f] = {"kind": "header"}
+    return {"idx": idx, "files": files, "facts": facts, "cmds": [["file-header"]], "layout": {"lead": 0, "crlf": False, "no_final_newline": False, "exotic_separators": False}}
+
+
 def make_case(rng, idx):
     lead = rng.choice([0, 0, 1, 7, 60, 400])
     crlf = rng.random() < 0.25
@@ -131,7 +160,9 @@ def make_case(rng, idx):
     def rl(*a):
         return relayout(*a, exotic=exotic)
     files, facts = {}, {}
-    kind = idx % 7
+    kind = idx % 8
+    if kind == 7:  # file headers with temporal wording on known lines (the finding quotes the word: it must be on the reported line)
+        return header_case(rng, idx)
     if kind == 6:  # duplicate constants across files, single- and multi-declarator, multi-line declarations
         names = ["RETRY_MS_%d" % idx, "ALPHA_LIMIT_%d" % idx, "POOL_WIDTH_%d" % idx, "BATCH_SIZE_%d" % idx]
         vals = [rng.randint(11, 999) for _ in names]
@@ -228,7 +259,7 @@ def num(text):
     return None
 
 
-NUMTOK = re.compile(r"(?<![\w.])(0[xX][0-9a-fA-F_]+|0[oO][0-7_]+|0[bB][01_]+|\d[\d_]*\.?[\d_]*(?:[eE][+-]?\d+)?|\.\d+)(?:[iuf](?:8|16|32|64|128|size)|n)?")
+NUMTOK = re.compile(r"(?:(?<![\w.])|(?<=\.\.))(0[xX][0-9a-fA-F_]+|0[oO][0-7_]+|0[bB][01_]+|\d[\d_]*\.?[\d_]*(?:[eE][+-]?\d+)?|\.\d+)(?:[iuf](?:8|16|32|64|128|size)|n)?")
 
 
 def run(ctx):
@@ -322,6 +353,13 @@ def run(ctx):
                     if fx.get("kind") == "rustcalls" and line not in {p[0] for p in fx["items"]}:
                         ctx.discrepancy("not-a-planted-call-line:%s" % fam, where, rep, files)
                     ctx.count("construct_checked:" + fam)
+                elif fam == "file-header" and msg.startswith("Temporal language detected"):
+                    q = re.search(r'"([^"]+)"', msg)
+                    if q and q.group(1).lower() not in text.lower():
+                        ctx.discrepancy("quoted-word-not-on-line:file-header", where, rep, files)
+                    elif not q and "ISO date" in msg and not re.search(r"\d{4}-\d{2}-\d{2}", text):
+                        ctx.discrepancy("quoted-word-not-on-line:file-header", where, rep, files)
+                    ctx.count("construct_checked:file-header")
                 elif fam == "improper-logging":
                     if "print(" not in text and "console." not in text:
                         ctx.discrepancy("call-not-on-line:improper-logging", where, rep, files)
